@@ -67,6 +67,8 @@ class DRYViolationBuilder:
             for d in all_duplicates
             if d.file_path != block.file_path or d.start_line != block.start_line
         ]
+        # the order in which files were linted must not change the text of the message
+        other_blocks.sort(key=lambda d: (str(d.file_path), d.start_line))
 
         return [f"{loc.file_path}:{loc.start_line}-{loc.end_line}" for loc in other_blocks]
 
